@@ -37,6 +37,14 @@ CHECKS = {
   text="Seeded simulation of front/back/fork/rev histories on konst's range iterators obtained through into_iter! (by value and by reference) for all 12 integer types and char, compared step by step with core::ops range iterators; for_each! (plain, rev() adapter, inherent rev) on the range values and on forked mid-iteration iterators. Bounds biased to MIN/MAX/0/-1, inverted and empty ranges, the surrogate gap; u8/i8 pairs additionally sampled uniformly (visited-pair count reported). Sampling, not proof.",
   note="Trusted: core::ops range iterators. RangeFrom never stepped to MAX's successor. Spans <= 40 (300).",
   tech=TECH),
+ "C15": dict(cat="fault_enumeration", ref="DESIGN.md 6 (C15)",
+  text="By-value world under fault injection with a drop/move ledger. Stage 1 enumerates the fault space completely: every fault site (Clone inside ArrayConsumer/ArrayBuilder::clone, Drop inside their Drop impls, the closure of map_!/from_fn_!/map!/from_fn! with panic/break/continue/return, the three misuse panics) x N in {0,1,2,3,5,8} x callback index k in 1..=N+1. Stage 2 samples seeded histories (takes from both ends, as_slice/as_mut_slice swaps, clone, Debug, assert_is_empty, early drop, mem::forget, push/build circulation array->consumer->caller->builder->array, 18 destructure! shapes incl. `_`/`..`/packed/generic/16-tuple, u32 copy(), zero-sized Drop elements) with 1-3 armed faults; after EVERY step each token ever created must have a drop count inside the model's allowed range (exactly-once on completing paths, never twice anywhere), identities/order/payload bit-for-bit as the model says.",
+  note="Trusted: the ledger token (Clone/Drop bookkeeping in a thread-local), std Vec/VecDeque as model, catch_unwind. Tokens held inside konst at a fault may be dropped 0 or 1 times. Drop order not compared. The fault space is swept completely; the histories around the faults are sampled.",
+  tech="deterministic simulation with fault injection: complete sweep of (fault site x size x callback index) plus seeded operation histories, drop/move ledger oracle (exactly-once, order, bit-identity), minimised replay"),
+ "C11": dict(cat="exploration", ref="DESIGN.md 6 (C11)",
+  text="Same simulated runs as C15, second oracle: (a) builder histories - as_slice()/len()/is_full() equal the model Vec after each step, build() panics when not full or returns exactly the pushed tokens in push order, every slot of every returned array is a live intact token, push on a full builder panics; (b) map_!/from_fn_!/map!/from_fn! at run time on lengths 0..=8: result equals <[T;N]>::map / array::from_fn on the model (identity, clone parentage, fresh-token order), and under panic/break/continue/return at every callback index the macro panics or returns early and never hands back an array. NOT decided: the collect_const! clause (const items evaluated by rustc; nothing executes).",
+  note="Trusted: the ledger token, the Vec model. collect_const! clause undecided (named in DESIGN.md 6 C11). `continue` in map!/from_fn! excluded (documented infinite loop).",
+  tech="deterministic simulation with fault injection: seeded builder/macro histories with early-exit and panic faults at every callback index, liveness-canary and model-equality oracle, minimised replay"),
  "C07": dict(cat="exploration", ref="DESIGN.md 6 (C07)",
   text="ITERATION CLAUSE ONLY: seeded simulation of front/back/fork/rev/as_str histories on chars/char_indices (and reversed types) over strings of boundary scalars of every UTF-8 length, compared step by step with core::str::{Chars, CharIndices}. The clause 'for every char / every u32' (complete enumeration) is a pure-input statement and is not decided; chr::encode_utf8/from_u32 only run on the scalars the generator places.",
   note="Trusted: core::str iterators. Strings <= 12 (32) chars. Undecided clause named above.",
